@@ -49,23 +49,23 @@ func drawAllocator(prog *simrt.Stream, b Bounds) signal.Allocator {
 func freshCheck[T signal.SignalTypes](a signal.Allocator, b *signal.Buffer[T]) (v *Violation) {
 	defer func() {
 		if r := recover(); r != nil {
-			v = &Violation{"not-fresh-shape", spA("inspecting the obtained buffer panicked: %v", r)}
+			v = violf("not-fresh-shape", "inspecting the obtained buffer panicked: %v", r)
 		}
 	}()
 	if b == nil {
-		return &Violation{"not-fresh-shape", "Get returned a nil buffer"}
+		return violf("not-fresh-shape", "Get returned a nil buffer")
 	}
 	f := signal.Alloc[T](a)
 	if b.Channels() != f.Channels() || b.Length() != f.Length() || b.Capacity() != f.Capacity() ||
 		b.Len() != f.Len() || b.Cap() != f.Cap() || b.BitDepth() != f.BitDepth() {
-		return &Violation{"not-fresh-shape", spA(
+		return violf("not-fresh-shape",
 			"obtained buffer has channels=%d length=%d capacity=%d len=%d cap=%d bitdepth=%d; a fresh Alloc(%+v) has channels=%d length=%d capacity=%d len=%d cap=%d bitdepth=%d",
-			b.Channels(), b.Length(), b.Capacity(), b.Len(), b.Cap(), b.BitDepth(), a,
-			f.Channels(), f.Length(), f.Capacity(), f.Len(), f.Cap(), f.BitDepth())}
+			b.Channels(), b.Length(), b.Capacity(), b.Len(), b.Cap(), int(b.BitDepth()), a,
+			f.Channels(), f.Length(), f.Capacity(), f.Len(), f.Cap(), int(f.BitDepth()))
 	}
 	bf, ff := fullView(b), fullView(f)
 	if bf.Len() != ff.Len() {
-		return &Violation{"not-fresh-shape", spA("full-capacity view has %d samples, fresh one has %d", bf.Len(), ff.Len())}
+		return violf("not-fresh-shape", "full-capacity view has %d samples, fresh one has %d", bf.Len(), ff.Len())
 	}
 	for i := 0; i < bf.Len(); i++ {
 		if x, y := bitsOf(bf.Sample(i)), bitsOf(ff.Sample(i)); x != y {
@@ -73,9 +73,9 @@ func freshCheck[T signal.SignalTypes](a signal.Allocator, b *signal.Buffer[T]) (
 			if i >= b.Len() {
 				where = "beyond the length, inside the capacity"
 			}
-			return &Violation{"not-fresh-content", spA(
+			return violf("not-fresh-content",
 				"obtained buffer reads %#x at interleaved position %d (%s; len=%d cap=%d); a fresh buffer reads %#x",
-				x, i, where, b.Len(), b.Cap(), y)}
+				x, i, where, b.Len(), b.Cap(), y)
 		}
 	}
 	return nil
@@ -115,11 +115,20 @@ type hist struct {
 // applyUse performs op on *cur (which may be replaced by a reslice). Panics of
 // the operation itself are not this property's subject: they are swallowed and
 // reported through panicked. peer, if non-nil, may be used as an Append source.
-func (h *H[T]) applyUse(cur **signal.Buffer[T], op useOp, peer *signal.Buffer[T], hs *hist, point func()) (desc string, panicked bool) {
+// logf receives one description of what was done (format+args, never
+// formatted here: see Violation).
+func (h *H[T]) applyUse(cur **signal.Buffer[T], op useOp, peer *signal.Buffer[T], hs *hist, point func(), logf func(string, ...any)) (panicked bool) {
+	var desc string
+	var dargs []any
+	d := func(format string, args ...any) { desc, dargs = format, args }
 	defer func() {
 		if r := recover(); r != nil {
-			desc += sp(" PANIC(%v)", r)
+			desc += " PANIC(%v)"
+			dargs = append(dargs, r)
 			panicked = true
+		}
+		if logf != nil {
+			logf(desc, dargs...)
 		}
 	}()
 	b := *cur
@@ -129,7 +138,7 @@ func (h *H[T]) applyUse(cur **signal.Buffer[T], op useOp, peer *signal.Buffer[T]
 		if n > 96 {
 			n = 96 + n%8
 		}
-		desc = sp("AppendSample x%d", n)
+		d("AppendSample x%d", n)
 		for i := 0; i < n; i++ {
 			b.AppendSample(nonzero[T](op.b + uint64(i)))
 			if point != nil {
@@ -139,14 +148,15 @@ func (h *H[T]) applyUse(cur **signal.Buffer[T], op useOp, peer *signal.Buffer[T]
 		hs.appendedSample = true
 	case uSetSample:
 		if b.Len() == 0 {
-			return "SetSample (skipped: empty)", false
+			d("SetSample (skipped: empty)")
+			return false
 		}
 		i := int(op.a) % b.Len()
-		desc = sp("SetSample(%d)", i)
+		d("SetSample(%d)", i)
 		b.SetSample(i, nonzero[T](op.b))
 	case uWrite:
 		n := int(op.a) % (b.Len() + 3)
-		desc = sp("Write(%d values)", n)
+		d("Write(%d values)", n)
 		vals := make([]T, n)
 		for i := range vals {
 			vals[i] = nonzero[T](op.b + uint64(i))
@@ -154,20 +164,21 @@ func (h *H[T]) applyUse(cur **signal.Buffer[T], op useOp, peer *signal.Buffer[T]
 		signal.Write(vals, b)
 	case uReslice:
 		n := int(op.a) % (b.Capacity() + 1)
-		desc = sp("Slice(0,%d)", n)
+		d("Slice(0,%d)", n)
 		*cur = b.Slice(0, n)
 		hs.sliced = true
 	case uDirtBeyond:
 		full := fullView(b)
 		if full.Len() == 0 {
-			return "SetSample beyond length (skipped: no capacity)", false
+			d("SetSample beyond length (skipped: no capacity)")
+			return false
 		}
 		i := int(op.a) % full.Len()
 		if full.Len() > b.Len() {
 			i = b.Len() + int(op.a)%(full.Len()-b.Len())
 			hs.dirtBeyond = true
 		}
-		desc = sp("Slice(0,Capacity).SetSample(%d) [len=%d]", i, b.Len())
+		d("Slice(0,Capacity).SetSample(%d) [len=%d]", i, b.Len())
 		full.SetSample(i, nonzero[T](op.b))
 	case uAppendBuf:
 		spare := b.Capacity() - b.Length()
@@ -177,17 +188,17 @@ func (h *H[T]) applyUse(cur **signal.Buffer[T], op useOp, peer *signal.Buffer[T]
 		capBefore := b.Cap()
 		switch mode := int(op.a) % 4; {
 		case mode == 3 && peer != nil:
-			desc = sp("Append(other outstanding buffer, %d frames)", peer.Length())
+			d("Append(other outstanding buffer, %d frames)", peer.Length())
 			b.Append(peer)
 		case mode == 2:
-			desc = "Append(self)"
+			d("Append(self)")
 			b.Append(b)
 		default:
 			frames := int(op.b) % (spare + 1)
 			if mode == 1 {
 				frames = spare + 1 + int(op.b)%3
 			}
-			desc = sp("Append(private %d frames; spare %d)", frames, spare)
+			d("Append(private %d frames; spare %d)", frames, spare)
 			src := signal.Alloc[T](signal.Allocator{Channels: b.Channels(), Length: frames, Capacity: frames})
 			for i := 0; i < src.Len(); i++ {
 				src.SetSample(i, nonzero[T](op.c+uint64(i)))
@@ -212,15 +223,15 @@ func (h *H[T]) applyUse(cur **signal.Buffer[T], op useOp, peer *signal.Buffer[T]
 				src[ch][i] = nonzero[T](op.c + uint64(ch*131+i))
 			}
 		}
-		desc = "WriteStriped"
+		d("WriteStriped")
 		signal.WriteStriped(src, b)
 	case uConvDst:
 		cv := h.convDst[int(op.a)%len(h.convDst)]
 		frames := int(op.b) % (b.Length() + 2)
-		desc = sp("%s from %d frames", cv.name, frames)
+		d("%s from %d frames", cv.name, frames)
 		cv.f(b, frames, op.c)
 	}
-	return desc, false
+	return false
 }
 
 // snapshotFull reads the full-capacity contents of b (bit patterns).
